@@ -82,10 +82,10 @@ CHECKS = {
     'C18': dict(engine='KT', technique='kernel translation: the real source of the serial/date kernels and date functions interpreted symbolically into z3 (Int/Real arithmetic; datetime as ordinal + seconds; calendar fields as uninterpreted functions / days-from-civil); one query per obligation',
                 text='Bounded symbolic model checking by source->SMT translation: serial<->date is the 1900 system and a bijection for EVERY whole serial 1..2958465 (one query each); time of day = fraction; '
                      'DAY/MONTH/YEAR/ISOWEEKNUM and WEEKDAY (all ten return types, every invalid type) for every serial 61..2958465; DATE(YEAR,MONTH,DAY)=n; DATE carry for all months/days in -60..60 '
-                     '(thorough -2000..2000) on 10 representative years; EDATE/EOMONTH for every day of 7 representative years x offsets -24..24 (thorough -120..120); DAYS, DATEDIF("d"), YEARFRAC bases 2/3 over '
-                     'all pairs of serials. Boundary inputs and solver models are replayed on the real functions.',
-                note='Trusted: kt/kt.py, kt/models_date.py (datetime/timedelta/relativedelta/rrule(DAILY) models, days-from-civil formula), z3. Outside: DATEDIF units M/Y/MD/YM/YD, YEARFRAC bases 0/1/4 '
-                     '(third-party iteration/tables), NOW/TODAY, serial 60; DATE/EDATE/EOMONTH over ALL years at once (z3 answers unknown) - representative years instead.'),
+                     '(thorough -2000..2000) on 10 representative years; EDATE/EOMONTH for every day of 7 representative years x offsets -24..24 (thorough -120..120); DAYS over all pairs of serials 1..2958465 without 60 (the class\'s own __sub__ interpreted), DATEDIF("d") and YEARFRAC bases 2/3 over '
+                     'all pairs of serials 61..; DATEDIF "M"/"Y" = complete months/years for every start day of 7 representative years x every end from 40 days before to 400/1500 (thorough 1100/3700) days after. Thorough: every deciding query re-decided by z3 4.8.12 and cvc5. Boundary inputs and solver models are replayed on the real functions.',
+                note='Trusted: kt/kt.py, kt/models_date.py (datetime/timedelta/relativedelta/rrule(DAILY/MONTHLY/YEARLY) models, days-from-civil formula), z3. Outside: DATEDIF units MD/YM/YD (not in the statement), YEARFRAC bases 0/1/4 '
+                     '(yearfrac package tables), NOW/TODAY, serial 60; DATE/EDATE/EOMONTH over ALL years at once (z3 answers unknown) - representative years instead.'),
     'C16': dict(engine='KT+XH', technique='kernel translation of the rounding kernels into z3 reals/ints (one query per function) + CrossHair symbolic execution of every math function with contract stubs for the C library',
                 text='Bounded symbolic model checking: ROUND/ROUNDUP/ROUNDDOWN/TRUNC for EVERY real number in -10^15..10^15 and every digit count -10..10, INT, EVEN, FLOOR (integers), CEILING (integers, 9 significances), MOD (integer dividends, 11 divisors) '
                      'equal Excel\'s rounding direction on exact decimal arithmetic; every function of the statement returns a finite number or an Excel error for ALL real arguments when the C library is replaced by its '
@@ -99,14 +99,15 @@ CHECKS = {
                 note=XH_NOTE + ' P4: numpy_financial replaced by a recording stub. NOT applicable: IRR/XIRR root claims (LAPACK eigenvalues / scipy Newton on floats) and the PMT/PV closed forms and their '
                      'inversion (inside numpy_financial); symbolic rates (float pow has no SMT-LIB counterpart).'),
     'C08': dict(engine='XH', technique='symbolic execution (CrossHair+z3) of the cast layer and of every registered function with numeric parameters under every spelling of the same symbolic value',
-                text='Bounded symbolic model checking: Number/Text/Boolean casts and validate_args on ints (-999..999), digit strings (length <= 3), booleans, blanks, non-numeric text; every registered '
+                text='Bounded symbolic model checking: Number/Text/Boolean casts and validate_args on ints (-999..999), digit strings (length <= 3), booleans, blanks, non-numeric text, decimal text without integer/fraction digits, exponents, surrounding blanks and near misses (1_0, nan, inf, 1e400, full-width digits -> #VALUE!); every registered '
                      'function with numeric scalar parameters (~75, enumerated at run time) x each numeric position x 8 spellings (int, float, Number, numeric text "n"/"n.0", Text, numpy.int64/float64, TRUE) '
                      'gives one result; arithmetic coercion identities for + - * unary minus and &; function-name dispatch for 7 spellings (case, _xlfn.), a user-registered function seen by a later evaluator.',
                 note=XH_NOTE + ' Function bodies cross the C boundary, so the spelled value is forked over 1..3; P4 dateutil stub for the non-numeric-text obligation; date-text parsing by dateutil and locale formats are outside.'),
     'C11': dict(engine='XH', technique='symbolic execution (CrossHair+z3) of Reader.read_cells/read_defined_names + ModelCompiler.parse_archive/build_* on an in-memory openpyxl workbook of patch.Cell objects with symbolic payloads',
-                text='Bounded symbolic model checking of the adapter layer only: for a 3-sheet in-memory workbook (a sheet name needing quotes, constants, formulas with cached results, a defined name for a cell and '
-                     'for a range) and ALL payload values (ints; int/text/bool), every subset of ignored sheets: exactly the non-ignored cells, with constants, formula texts and cached results (readable '
-                     'before evaluation); evaluates like a model built directly from the same contents.',
+                text='Bounded symbolic model checking of the adapter layer only: for a 4-sheet in-memory workbook (a sheet name needing quotes, one whose name extends an ignorable one; 21 stored cells: constants, '
+                     'formulas with cached results, an empty stored cell; 8 defined names: cell, range, on the quoted sheet, over cells that are not stored, also written out directly, on the ignorable sheet) and ALL '
+                     'payload values (ints; int/text/bool), every subset of ignored sheets, three obligations each: exactly the non-ignored cells with typed constants, formula texts and cached results (readable '
+                     'before evaluation) and the names bound; every formula and name evaluates to its reference value and a value set through a name reaches its cell; evaluates like a model built directly from the same contents.',
                 note=XH_NOTE + ' NOT applicable (and not claimed): zip container, XML parsing, shared strings, shared-formula expansion, openpyxl.load_workbook - file I/O and third-party decoding through which no symbolic input survives.'),
 }
 NA = {
